@@ -255,8 +255,16 @@ func (p *parser) createStmt() (any, error) {
 		if err != nil {
 			return nil, err
 		}
-		p.skipToEnd()
-		return &Misc{Kind: "create_sequence", Name: strings.Join(name, ".")}, nil
+		m := &Misc{Kind: "create_sequence", Name: strings.Join(name, "."), Args: map[string]string{}}
+		for !p.isOp(";") && p.peek().kind != tEOF {
+			// CACHE n: every session preallocates n values at a time (the other options do not matter here)
+			if p.isKwAt(0, "cache") && p.peekAt(1).kind == tNumber {
+				m.Args["cache"] = p.peekAt(1).text
+				p.pos++
+			}
+			p.pos++
+		}
+		return m, nil
 	case p.acceptKw("trigger"):
 		name, err := p.identifier()
 		if err != nil {
